@@ -261,6 +261,12 @@ def run(ctx):
         arr = any(l["ty"] == "[u8; %d]" % n for l in p.locals)
         errs = [v for _, v in E.aggregates(prog, p.__class__ and p) if "InvalidStringLength" in v]
         inner = [v for c in prog.closures_of(p) for _, v in E.aggregates(prog, c) if "InvalidStringLength" in v]
+        allc = [(c, a) for _, c, a in E.calls(prog, d)]
+        whole = {"ContentAddress": r"^self\.0$", "Signature": r"^<T as std::convert::Into<U>>::into\(<essential_types::Signature as std::clone::Clone>::clone\(self\)\)$"}[ty]
+        enc = [a for c, a in allc if c == "hex::encode_upper"]
+        fmts = [c for c, _ in allc if re.search(r"std::fmt::(Display|UpperHex|LowerHex|Debug)>::fmt$|fmt::Formatter::write_fmt$|fmt::Arguments", c)]
+        ctx.ob("R5", "%s:display-is-the-upper-hex-of-all-%d-bytes" % (ty, n), len(enc) == 1 and re.match(whole, enc[0][0]) is not None and fmts == ["<std::string::String as std::fmt::Display>::fmt"],
+               "%s:%d" % (d.file, d.line), "Display encodes %s and writes through %s (one hex string of the whole value, nothing appended)" % ([a[0][:70] for a in enc], fmts), d)
         ctx.ob("R5", "%s:encode_upper<->decode,length=%d" % (ty, n), dc == ["hex::encode_upper"] and [c for c, _ in pc] == ["hex::decode"] and pc[0][1] == ["s"] and arr and bool(errs or inner),
                "%s:%d" % (p.file, p.line), "Display uses %s; FromStr uses %s into [u8; %d]: %s, wrong length -> InvalidStringLength: %s" % (dc, [c for c, _ in pc], n, arr, bool(errs or inner)), p)
 
